@@ -657,6 +657,56 @@ def subclass_options(res, T, t, cls, rng, n):
         MODULE_CLASSES.update(originals)
 
 
+def foreign_records(res, T, t, cls, rng, n):
+    """Options records as other writers store them: cut short at ANY length (the format pads with zeros, so the missing bytes
+    are zeros - down to a record of length 0), or longer than this library writes.  Every option reads what the padded record
+    says; aliases of the option declarations in application classes do not rename anything."""
+    import rv.api as api
+    by = {o.name: o for o in t.options}
+    for k in range(n):
+        mod = cls()
+        for nm in rng.sample(sorted(by), rng.randint(0, len(by))):
+            setattr(mod, nm, rng.choice(_all_values(by[nm])))
+        raw = api.Synth(mod).read()
+        chunks = [(c[0], c[1]) for c in iffparse.parse(raw)]
+        cur, pos = None, None
+        for i, (cid, pl) in enumerate(chunks):
+            if cid == b"CHNM":
+                cur = int.from_bytes(pl, "little")
+            elif cid == b"CHDT" and cur == t.options_chnm:
+                pos = i
+        if pos is None:
+            res.count("foreign_record_no_options_chunk")
+            continue
+        rec = chunks[pos][1]
+        L = rng.choice([0, 0, 1, len(rec.rstrip(b"\0")), rng.randint(0, len(rec)), len(rec) + 8])
+        new_rec = rec[:L] if L <= len(rec) else rec + bytes(L - len(rec))
+        padded = new_rec + bytes(64)
+        chunks[pos] = (b"CHDT", new_rec)
+        case = {"type": T, "family": "foreign-records", "record_length": L, "written_length": len(rec)}
+        res.case((T, "foreign-records", k, L))
+        res.count("foreign_option_records")
+        try:
+            back = api.read_sunvox_file(BytesIO(iffparse.build(chunks))).module
+            again = back.clone()
+        except Exception as e:
+            res.violation(f"C11:foreign-record-raises:{T}:{workload.exc_key(e)}", f"{T} with an options record of {L} bytes: {e!r}", case)
+            continue
+        for o in t.options:
+            rawv = (padded[o.byte] >> o.bit) & ((1 << o.size) - 1)
+            want = (not bool(rawv)) if (o.size == 1 and o.inverted) else (bool(rawv) if o.size == 1 else rawv)
+            if o.min is not None and o.max is not None:
+                want = max(o.min, min(o.max, want))
+            for which, m_ in (("loaded", back), ("saved again and loaded", again)):
+                got = getattr(m_, o.name)
+                if _ival(got) != _ival(want):
+                    res.violation(f"C11:foreign-record:{T}.{o.name}", f"{T}: options record of {L} bytes (zero-padded by the format): {o.name} {which} reads {got!r}, the record says {want!r}", case)
+                    break
+            else:
+                continue
+            break
+
+
 def random_full(res, T, rng, n):
     from rv.modules import MODULE_CLASSES
     t = spec.load()[T]
@@ -815,8 +865,23 @@ def random_full(res, T, rng, n):
             res.sample(case)
 
 
+def application_aliases(T):
+    """Application class bodies that keep handles on the type's option declarations under names of their own (a UI panel; a
+    subclass offering shorter spellings).  Nothing about the type changes by that; everything that follows in the shard runs
+    with these classes defined."""
+    from rv.modules import MODULE_CLASSES
+    t = spec.load()[T]
+    cls = MODULE_CLASSES[t.mtype]
+    type("Panel" + T, (), {f"opt_{k}": o_ for k, o_ in enumerate(cls.options.values())})
+    type(cls.__name__ + "Aliased", (cls,), {f"alias_{k}": o_ for k, o_ in enumerate(cls.options.values())} | {"__module__": cls.__module__, "__doc__": cls.__doc__})
+    MODULE_CLASSES[t.mtype] = cls
+
+
 def run_shard(spec_, res):
     rng = random.Random(spec_["seed"])
+    if spec_.get("shard", 0) % 2 == 0 or spec_["mode"] != "structured":
+        application_aliases(spec_["type"])
+        res.count("shards_with_application_aliases_of_options")
     if spec_["mode"] == "structured":
         structured(res, spec_["type"], rng, spec_["tier"])
         res.exhaustive = True
@@ -828,6 +893,7 @@ def run_shard(spec_, res):
         interleaved_writers(res, spec_["type"], spec.load()[spec_["type"]], MODULE_CLASSES[spec.load()[spec_["type"]].mtype], rng, 20 if spec_["tier"] == "quick" else 200)
         linked_modules(res, spec_["type"], spec.load()[spec_["type"]], MODULE_CLASSES[spec.load()[spec_["type"]].mtype], rng, 40 if spec_["tier"] == "quick" else 400)
         subclass_options(res, spec_["type"], spec.load()[spec_["type"]], MODULE_CLASSES[spec.load()[spec_["type"]].mtype], rng, 12 if spec_["tier"] == "quick" else 120)
+        foreign_records(res, spec_["type"], spec.load()[spec_["type"]], MODULE_CLASSES[spec.load()[spec_["type"]].mtype], rng, 30 if spec_["tier"] == "quick" else 300)
     res.count("types_" + spec_["mode"])
 
 
